@@ -143,12 +143,13 @@ class TimeMixIn(object):
             text += '.%d' % (dt.microsecond // 1000)
 
         if dt.utcoffset():
-            seconds = dt.utcoffset().seconds
-            if seconds < 0:
+            minutes = dt.utcoffset().days * 1440 + dt.utcoffset().seconds // 60
+            if minutes < 0:
                 text += '-'
+                minutes = -minutes
             else:
                 text += '+'
-            text += '%.2d%.2d' % (seconds // 3600, seconds % 3600)
+            text += '%.2d%.2d' % (minutes // 60, minutes % 60)
         else:
             text += 'Z'
 
